@@ -445,6 +445,28 @@ def section_strings(t: Tally, ctx: Ctx):
             pass
         except Exception as e:
             t.fail(f"{name}:null-wrong-error", f"{r.__name__}({ref.hex()}) raised {e!r}", {"fn": name, "ref": ref.hex()})
+    # illegal length prefixes: a negative legacy length other than -1 is not an encoding of anything.  Kafka's own readers
+    # treat every negative length as null, kio raises; either is a rejection of the bytes that follow - what a reader must
+    # never do is hand those bytes out as the value.
+    for name, r, width in [
+        ("legacy_string", R.read_legacy_string, 2), ("legacy_string_nullable", R.read_nullable_legacy_string, 2),
+        ("legacy_bytes", R.read_legacy_bytes, 4), ("legacy_bytes_nullable", R.read_nullable_legacy_bytes, 4),
+    ]:
+        for bad in (-2, -3, -128, -(2 ** (8 * width - 1))):
+            for payload in (b"", b"x", b"payload-bytes-that-follow"):
+                data = be(bad, width, True) + payload
+                t.evals += 1
+                t.nontrivial.add(case_hash(("neglen", name, bad, payload)))
+                try:
+                    v = r(io.BytesIO(data))
+                except Exception:
+                    continue
+                if v is not None and len(v) > 0:
+                    t.fail(f"{name}:negative-length-returns-data", f"{r.__name__}({data.hex()}) returned {v!r}: length prefix {bad} is not an encoding",
+                           {"fn": name, "ref": data.hex()})
+                elif v is not None and "nullable" not in name:
+                    t.fail(f"{name}:negative-length-accepted", f"{r.__name__}({data.hex()}) returned {v!r} for length prefix {bad}",
+                           {"fn": name, "ref": data.hex()})
     n_ex = 600 if ctx.quick else 5000
 
     @hypothesis.seed(ctx.subseed("strings"))
